@@ -234,6 +234,29 @@ func replay(path string) int {
 		fmt.Printf("NOT-REPRODUCED property=%s clause=%s\n", rf.Property, rf.Clause)
 		return 0
 	}
+	if !rf.Deterministic && spec.NondetClause != "" && rf.Clause == spec.NondetClause {
+		// a finding about non-determinism: execute the case repeatedly; it is
+		// reproduced when two executions disagree (one reports a violation,
+		// another does not, or they report different ones)
+		first := ""
+		for i := 0; i < 60; i++ {
+			var cl []string
+			for _, v := range spec.Check(rf.Case, props.NewCov()) {
+				cl = append(cl, v.Clause+": "+v.Msg)
+			}
+			k := strings.Join(cl, "\n")
+			if i == 0 {
+				first = k
+				continue
+			}
+			if k != first {
+				fmt.Printf("replay: execution 1 and execution %d of the same case disagree:\n--- 1:\n%s\n--- %d:\n%s\nREPRODUCED property=%s clause=%s\n", i+1, clipS(first, 600), i+1, clipS(k, 600), rf.Property, rf.Clause)
+				return 1
+			}
+		}
+		fmt.Printf("NOT-REPRODUCED property=%s clause=%s (60 executions agreed; the finding is about non-determinism and may need more)\n", rf.Property, rf.Clause)
+		return 0
+	}
 	vs := spec.Check(rf.Case, props.NewCov())
 	same := false
 	for _, v := range vs {
@@ -511,7 +534,16 @@ func orchestrate(prop, tier string) int {
 		}
 		reported[v.Clause] = true
 		nviol++
+		orig := v.Clause
 		path, code := report(spec, v, dir, seed, knownIDs)
+		if code == 0 && v.Clause != orig {
+			// re-classified (non-determinism finding): one report per batch
+			if reported[v.Clause] {
+				nviol--
+				continue
+			}
+			reported[v.Clause] = true
+		}
 		if code == 2 {
 			// not reproducible from its materialised case: reported as
 			// infrastructure trouble, never as a VIOLATION; other violations of
@@ -607,6 +639,21 @@ func report(spec *props.Spec, v *props.Violation, dir string, seed uint64, known
 		return path, 0
 	}
 	if !still(v.Case) {
+		if spec.NondetClause != "" {
+			// once more, to tell "never again" from "sometimes": either way the
+			// same controlled inputs gave two different outcomes
+			name := fmt.Sprintf("%s-%d-%d-%s.json", spec.ID, seed, v.Case.Run, strings.TrimPrefix(spec.NondetClause, spec.ID+"."))
+			path := filepath.Join(dir, "replays", name)
+			msg := fmt.Sprintf("the same materialised case (same bytes, options, directory tree and simulator-chosen map iteration order) gave a %s violation when first executed and none when executed again in the same process: the outcome depends on something outside the inputs (scheduling of goroutines the code starts itself). First observation: %s", v.Clause, v.Msg)
+			rf := replayFile{Property: spec.ID, Clause: spec.NondetClause, Message: msg, Deterministic: false, Seed: seed, Run: v.Case.Run, Case: v.Case, ReplayCmd: "/verif/run.sh replay " + path}
+			b, _ := json.MarshalIndent(rf, "", " ")
+			if err := os.WriteFile(path, b, 0o644); err != nil {
+				fmt.Fprintf(os.Stderr, "INFRASTRUCTURE: %v\n", err)
+				return "", 2
+			}
+			v.Clause, v.Msg = spec.NondetClause, msg
+			return path, 0
+		}
 		fmt.Fprintf(os.Stderr, "INFRASTRUCTURE: violation %s does not reproduce in-process from its materialised case (simulator determinism bug)\n", v.Clause)
 		return "", 2
 	}
